@@ -117,6 +117,110 @@ def owner_qualname(repo, fn, owners):
     return fn.qualname
 
 
+STRUCTSEQ_REPRS = [
+    # (repr of a struct sequence as CPython writes it: typename(name=repr(element), ...), its field names)
+    ("time.struct_time(tm_year=2020, tm_mon=1, tm_mday=2)", ('tm_year', 'tm_mon', 'tm_mday')),
+    ("pwd.struct_passwd(pw_name='x', pw_gecos='Alice A., room=12', pw_dir='/')", ('pw_name', 'pw_gecos', 'pw_dir')),
+    ("os.stat_result(st_mode=33188, st_ino=-1)", ('st_mode', 'st_ino')),
+    ("T(a=Foo(b=1), c=[1, 2], d={'k=': 'v, e=1'})", ('a', 'c', 'd')),
+    ("posix.uname_result(sysname='Linux', nodename='h(ost=1)')", ('sysname', 'nodename')),
+]
+
+
+def keyed_cache_values(repo, rep, rule):
+    """What the print pipeline remembers per class must be a function of the class alone (otherwise the first value of a class that
+    is printed decides how all later ones print).  For every store into the class-keyed cache: the key is the class of the value, and
+    the stored value is the result of one extractor call - never the exception of a failed attempt or anything else derived from the
+    particular value; the extractor is interpreted on struct-sequence reprs whose elements contain commas, '=' and calls."""
+    from engine import roles
+    store = roles.name(repo, 'cnamedtuple_cache')
+    m = repo.module('prettyprinter')
+    n = 0
+    extractors = {}
+    for f in m.funcs.values():
+        handler_names = {h.name for h in ast.walk(f.node) if isinstance(h, ast.ExceptHandler) and h.name}
+        defs = {}
+        for a in ast.walk(f.node):
+            if isinstance(a, ast.Assign):
+                for t in a.targets:
+                    if isinstance(t, ast.Name):
+                        defs.setdefault(t.id, []).append(a.value)
+        limit = [10 ** 9]
+
+        def origins(e, depth=0):
+            if isinstance(e, ast.Constant):
+                return {'const'}
+            if isinstance(e, ast.Name):
+                if e.id in handler_names:
+                    return {'the exception of a failed attempt'}
+                ds = [d for d in defs.get(e.id, []) if d.lineno <= limit[0]]
+                if ds and depth < 5:
+                    out = set()
+                    for d in ds:
+                        out |= origins(d, depth + 1)
+                    return out
+                return {'the value being printed (%s)' % e.id} if e.id in f.params else {'%s' % e.id}
+            if isinstance(e, ast.Call) and isinstance(e.func, ast.Name):
+                if e.func.id == 'type' and len(e.args) == 1:
+                    return {'class'}
+                r = repo.resolve(f.module, e.func.id)
+                if r and r[0] == 'func':
+                    return {('extractor', r[1].key)}
+            if isinstance(e, (ast.Tuple, ast.List)):
+                out = set()
+                for x in e.elts:
+                    out |= origins(x, depth + 1)
+                return out or {'const'}
+            return {src(e)[:50]}
+        for st in ast.walk(f.node):
+            if not (isinstance(st, ast.Assign) and any(isinstance(t, ast.Subscript) and isinstance(t.value, ast.Name) and t.value.id == store
+                                                       for t in st.targets)):
+                continue
+            t = next(t for t in st.targets if isinstance(t, ast.Subscript))
+            n += 1
+            limit[0] = st.lineno
+            ko = origins(t.slice)
+            rep.check(ko <= {'class'}, rule, 'keyed-cache:%s:key-is-the-class' % f.qualname, '%s:%d' % (m.relpath, st.lineno),
+                      'the cache is keyed by the class of the value', '%s stores into %s under a key derived from %s' % (f.key, store, sorted(map(str, ko))),
+                      nontrivial=True)
+            vo = origins(st.value)
+            ex = {o for o in vo if isinstance(o, tuple)}
+            other = sorted(str(o) for o in vo - ex - {'class', 'const'})
+            n += 1
+            rep.check(not other, rule, 'keyed-cache:%s:value-is-a-function-of-the-class' % f.qualname, '%s:%d' % (m.relpath, st.lineno),
+                      'only the result of the field-name extractor is remembered for a class',
+                      '%s remembers, for the class, something derived from %s: what is stored depends on the first value of the class that was '
+                      'printed (e.g. time.struct_time((object(), 1, 2, 3, 4, 5, 6, 7, 0)) printed first makes every later struct_time print as a '
+                      'plain tuple), so the output of pformat depends on the call history' % (f.key, ', '.join(other)), nontrivial=True)
+            for _, k in ex:
+                extractors[k] = next(ff for ff in repo.all_functions() if ff.key == k)
+    # the extractor gives the field names of the class whatever the elements look like
+    from engine.interp import Interp, Const, Sym, TupleV, ListV, Undecided, Raised, PathLimit
+    for k, ef in sorted(extractors.items()):
+        for text, names in STRUCTSEQ_REPRS:
+            n += 1
+            it = Interp(repo, {'repr': lambda it_, a, kw, nd, text=text: Const(text)}, max_paths=4, max_depth=60)
+            it.concrete_context = True
+            it.eager_generators = {ef.name}
+            try:
+                prs = it.explore(ef, [Sym('value')], {})
+            except (Undecided, PathLimit) as e:
+                rep.undecided(rule, 'keyed-cache:extractor:%s' % text.split('(')[0], ef.where, '%s cannot be interpreted on %r: %s' % (ef.name, text, e))
+                continue
+            got = None
+            if len(prs) == 1 and prs[0].raised is None:
+                try:
+                    got = tuple(getattr(x, 'v', None) for x in it.iterate(prs[0].value))
+                except Undecided:
+                    got = None
+            elif len(prs) == 1:
+                got = 'raises ' + prs[0].raised.what
+            rep.check(got == names, rule, 'keyed-cache:extractor:%s' % text.split('(')[0], ef.where, 'field names of the class: %s' % (names,),
+                      '%s gives %s for a value whose repr is %r (field names %s): what is remembered for the class depends on the elements of the '
+                      'first value printed' % (ef.name, got, text, names), nontrivial=True)
+    return n
+
+
 def check_write_inventory(repo, rep, rule):
     """every write to module-level state from inside the print cone is in the allow-list"""
     cone, shared, sites, cone_sites = cone_inventory(repo)
@@ -137,6 +241,7 @@ def check_write_inventory(repo, rep, rule):
                   '%s %s module-level %s %s from inside the printing pipeline; only the listed idempotent writes are '
                   'allowed there (a cache, counter or memo makes the output depend on call history and is shared by '
                   'all threads)' % (s.fn.key, s.detail, s.obj.kind, s.obj.key), nontrivial=True)
+    n += keyed_cache_values(repo, rep, rule)
     # mutable default arguments are module-lifetime state too: a cone function must not write into one
     MUTATORS = {'append', 'extend', 'insert', 'pop', 'popitem', 'remove', 'clear', 'add', 'discard', 'update', 'setdefault', 'sort', 'reverse', '__setitem__'}
     for k in sorted(cone):
@@ -247,6 +352,19 @@ def doc_object_stores(repo, rep, rule):
     are created only by normalize(); module-level constants are built with the flag clear."""
     m = repo.module('doctypes')
     n = 0
+    stores = []
+    from . import layoutmodel
+    cnt, bad, und = layoutmodel.immutability(repo, rep.tier)
+    n += 1
+    if bad:
+        for i, d in enumerate(sorted(bad, key=len)[:3]):
+            rep.fail(rule, 'documents-unchanged-by-layout' + ('' if i == 0 else '#%d' % (i + 1)), m.relpath, d)
+    elif und:
+        rep.undecided(rule, 'documents-unchanged-by-layout', m.relpath, und[0])
+    else:
+        rep.check(cnt >= 200, rule, 'documents-unchanged-by-layout', m.relpath,
+                  'no document (or module constant) reachable from the input was modified in %d interpreted layouts' % cnt,
+                  'only %d layouts could be compared' % cnt, nontrivial=True)
     for cname, ci in sorted(m.classes.items()):
         for mname, meth in ci.methods.items():
             if mname == '__init__':
@@ -257,14 +375,10 @@ def doc_object_stores(repo, rep, rule):
                     tgts = s.targets if isinstance(s, ast.Assign) else [s.target]
                     for t in tgts:
                         if isinstance(t, ast.Attribute) and src(t.value) == 'self':
-                            n += 1
-                            ok = cname == 'FlatChoice' and mname in ('when_broken', 'when_flat') and \
-                                any(f.pol and f.text in ('self.normalize_on_access', 'self._broken_normalized') for f in g.of(s))
-                            rep.check(ok, rule, '%s.%s:stores:%s' % (cname, mname, t.attr), '%s:%d' % (m.relpath, s.lineno),
-                                      'lazy normalisation of a private, freshly normalised FlatChoice',
-                                      '%s.%s assigns self.%s outside the lazy-normalisation idiom: document objects '
-                                      '(including the shared module-level constants) must be immutable' % (cname, mname, t.attr),
-                                      nontrivial=True)
+                            # an attribute store outside the constructor: recorded; whether a document that somebody else can hold is
+                            # ever modified is decided on the interpreted layouts below (documents-unchanged-by-layout), not by the
+                            # shape of the accessor
+                            stores.append('%s.%s:%s' % (cname, mname, t.attr))
                 # writing into a container held by the document (a per-object cache, a child list)
                 if isinstance(s, (ast.Assign, ast.AugAssign, ast.Delete)):
                     tgts = s.targets if not isinstance(s, ast.AugAssign) else [s.target]
